@@ -310,13 +310,71 @@ func genDevice(r *RNG, b *iosDev) (*iosDev, []string) {
 func genCase(r *RNG) cfgCase {
 	b := genTarget(r)
 	a, note := genDevice(r, b)
-	return cfgCase{Dev: a.print(), Spoc: b.print(), Note: note, dev: a, spoc: b}
+	devText := a.print()
+	if r.Chance(35) {
+		// blocks the tool does not model, with indented lines that look like ACL entries or other
+		// sub-commands, placed behind the last access-list, the last interface or the last route
+		devText = insertUnknownBlocks(r, devText)
+		note = append(note, "unknown-blocks-with-sub-lines")
+		return cfgCase{Dev: devText, Spoc: b.print(), Note: note, dev: parseDev(devText), spoc: b}
+	}
+	return cfgCase{Dev: devText, Spoc: b.print(), Note: note, dev: a, spoc: b}
+}
+
+var unknownBlocks = [][]string{
+	{"ipv6 access-list V6FILTER", " permit ipv6 any any", " deny ipv6 any any log", " remark hand made"},
+	{"ip access-list standard 23", " permit 10.0.0.0 0.255.255.255", " deny any"},
+	{"line vty 0 4", " access-class 23 in", " transport input ssh"},
+	{"router ospf 1", " network 10.0.0.0 0.255.255.255 area 0", " passive-interface default"},
+	{"class-map match-any CM", " match access-group name MANUAL"},
+}
+
+func insertUnknownBlocks(r *RNG, text string) string {
+	lines := strings.Split(strings.TrimSuffix(text, "\n"), "\n")
+	// section ends: index behind the last line of each top-level block kind
+	lastOf := func(prefix string) int {
+		end := -1
+		in := false
+		for i, l := range lines {
+			if !strings.HasPrefix(l, " ") {
+				in = strings.HasPrefix(l, prefix)
+			}
+			if in {
+				end = i + 1
+			}
+		}
+		return end
+	}
+	var pos []int
+	for _, p := range []string{"ip access-list extended ", "interface ", "ip route "} {
+		if e := lastOf(p); e >= 0 {
+			pos = append(pos, e)
+		}
+	}
+	if len(pos) == 0 {
+		pos = []int{len(lines)}
+	}
+	for k := 1 + r.Intn(2); k > 0; k-- {
+		at := Pick(r, pos)
+		blk := Pick(r, unknownBlocks)
+		if strings.Contains(strings.Join(lines, "\n"), blk[0]+"\n") {
+			continue
+		}
+		lines = append(lines[:at:at], append(append([]string{}, blk...), lines[at:]...)...)
+		for i := range pos {
+			if pos[i] > at {
+				pos[i] += len(blk)
+			}
+		}
+	}
+	return strings.Join(lines, "\n") + "\n"
 }
 
 func parseDev(text string) *iosDev {
 	d := newDev()
 	var cur *iosIntf
 	acl := ""
+	unk := false
 	for _, line := range strings.Split(text, "\n") {
 		if line == "" {
 			continue
@@ -324,6 +382,8 @@ func parseDev(text string) *iosDev {
 		if strings.HasPrefix(line, " ") {
 			t := strings.TrimSpace(line)
 			switch {
+			case unk:
+				d.Unknown = append(d.Unknown, line) // sub-line of a block the tool does not model
 			case acl != "":
 				d.ACLs[acl] = append(d.ACLs[acl], iosEntry{10 * (len(d.ACLs[acl]) + 1), t})
 			case cur != nil && strings.HasPrefix(t, "ip address "):
@@ -340,7 +400,7 @@ func parseDev(text string) *iosDev {
 			}
 			continue
 		}
-		cur, acl = nil, ""
+		cur, acl, unk = nil, "", false
 		switch {
 		case strings.HasPrefix(line, "interface "):
 			cur = &iosIntf{Name: strings.TrimPrefix(line, "interface ")}
@@ -353,6 +413,7 @@ func parseDev(text string) *iosDev {
 			d.Routes = append(d.Routes, strings.TrimPrefix(line, "ip route "))
 		default:
 			d.Unknown = append(d.Unknown, line)
+			unk = true
 		}
 	}
 	return d
